@@ -12,6 +12,15 @@ theorem pres_lockB {s s' : St} {a : Act} (hI : Inv s) (h : step .repaired s a = 
   | fire t0 =>
     simp only [step] at h
     (repeat' (split at h)) <;> (try cases h) <;> (simp only [St.setPc, St.setObj]; (have i_lockA := hI.lockA; have i_lockB := hI.lockB; grind [holdsStore]))
+  | corrupt d =>
+    simp only [step] at h
+    (repeat' (split at h)) <;> (try cases h) <;> (simp only []; (have i_lockA := hI.lockA; have i_lockB := hI.lockB; grind [holdsStore]))
+  | block d =>
+    simp only [step] at h
+    (repeat' (split at h)) <;> (try cases h) <;> (simp only []; (have i_lockA := hI.lockA; have i_lockB := hI.lockB; grind [holdsStore]))
+  | repair d =>
+    simp only [step] at h
+    (repeat' (split at h)) <;> (try cases h) <;> (simp only []; (have i_lockA := hI.lockA; have i_lockB := hI.lockB; grind [holdsStore]))
   | run t0 =>
     simp only [step] at h
     split at h
